@@ -729,7 +729,7 @@ func (e *Engine) lemmaObligation(lm *Lemma) ([]*Obl, error) {
 			x.declSort("Str")
 		}
 		n := x.fresh("lv."+v.Name, sort)
-		c.env[v.Name] = envEntry{Sc{T: n, S: sort}, t.gt}
+		c.env[v.Name] = envEntry{v: Sc{T: n, S: sort}, t: t.gt}
 		if t.sort == "" {
 			x.assume("true", rangeFormula(t.gt, n))
 		}
